@@ -357,7 +357,7 @@ def check(repo, rep):
                 if MS:
                     expected = fcall('min', ('bin', '-', ('attr', ('self',), MS[0]), ('attr', ('self',), cnt)), ('p', 'size'))
                     formula(rep, 'limiter never asks for more than min(budget - already read, requested size)', arg, expected, W(e[3]), '_Limiter.read:request', 'the inner request', pattern_ok=ok,
-                            sample=dict(inner_request=show(arg)[:160]))
+                            sample=dict(inner_request=show(arg)[:160]), conds=[(c_[0], c_[1]) for c_ in l.conds if c_[0][0] in ('cmp', 'not', 'and', 'or') and not any(t_ == e[1] for t_ in walk(c_[0]))])      # conditions on the read's own result come after the request
                 else:
                     rep.ob('limiter never asks for more than min(budget - already read, requested size)', ok, W(e[3]), '_Limiter.read:request', 'inner read asks %s' % show(arg)[:160])
                 # the guard  size <= 0 -> None  precedes the inner read
@@ -382,6 +382,8 @@ def check(repo, rep):
                 rep.ob('limiter returns the inner block unchanged', l.value[0] == 'call' and l.value[1][0] == 'attr' and l.value[1][2] == 'read', W(l.node), '_Limiter.read:returns',
                        'returns %s' % show(l.value)[:120])
         rep.floor('_Limiter.read inner read sites on paths', nread, 1)
+    from .c05 import check_roles
+    check_roles(cx, rep, lambda p: p['where'].startswith('auditok/util.py'), floor=5)
     rep.explanation = ('Structural rules on the reader stack of auditok/util.py, decided from path-sensitive provenance terms of the current source: nullness of every '
                        'read() result in the stack (E5); block_size = int(block_dur*rate), hop_size = int(hop_dur*rate), overlap cache slicing by hop_size*width*channels, '
                        'first read block_size then hop_size, block = previous tail + new data; TooSmallBlockDuration iff block_size == 0, ValueError for block_dur <= 0 and '
